@@ -222,7 +222,8 @@ fn main() {
                     variants.push((St::InsDup { rows: rows.clone(), asg: vec![(1, E::Lit(Lit::I(3)))] }, None));
                 }
                 if bulk_ok {
-                    variants.push((St::Bulk { rows: rows.clone() }, if pos > 0 { Some("C11/bulk-transfer-partial") } else { None }));
+                    // row-by-row transfer was repaired (d3142986): a change is a violation
+                    variants.push((St::Bulk { rows: rows.clone() }, None));
                 }
                 if what == "dup_pk_existing" {
                     // the conflicting row is updated to a key that exists: rejected after the earlier rows were written
